@@ -19,12 +19,12 @@ package main
 //	obs (P)   err:<class> or as for C15;  (A,O) <ok>|<targets afterwards>;  (a) <view of the output> or err
 
 import (
-	"context"
 	"encoding/json"
 	"fmt"
 	"reflect"
 	"strings"
 
+	"github.com/creachadair/jrpc2"
 	"github.com/creachadair/jrpc2/handler"
 )
 
@@ -67,34 +67,24 @@ func harnessPosStruct(names []string, xs []reflect.Type) reflect.Type {
 	return reflect.StructOf(fs)
 }
 
-func c16P(w *caseWriter, fnS, namesS, opts, ret, rawhex string) {
+func c16Case(fnS, namesS, opts, ret string) *hcase {
 	fd := parseFn(fnS)
 	names := splitNames(namesS)
-	raw := unhexf(rawhex)
-	view := viewOf(raw)
-	rec := &recorder{}
-	var fnv any
-	if p := guard(func() { fnv = makeFn(fd, rec, ret == "1") }); p != "" {
-		return
-	}
-	obs := ""
-	if p := guard(func() {
-		fi, err := handler.Positional(fnv, names...)
-		if err != nil {
-			obs = "err:" + classifyCheckErr(err)
-			return
-		}
-		applyOpts(fi, opts)
-		h := fi.Wrap()
-		rec.req = mkRequest(raw)
-		res, herr := h(context.Background(), rec.req)
-		obs = rec.observe(res, herr)
-	}); p != "" {
-		obs = "X:" + hexf(p)
-	}
-	oracle := "-"
-	if fd.kind == 'F' && len(fd.ins) >= 2 && len(names) == len(fd.ins)-1 {
-		if p := guard(func() {
+	return &hcase{
+		kind: "P", in: []string{fnS, namesS, opts, ret},
+		mk: func(rec *recorder) any { return makeFn(fd, rec, ret == "1") },
+		wrap: func(fnv any) (jrpc2.Handler, string) {
+			fi, err := handler.Positional(fnv, names...)
+			if err != nil {
+				return nil, "err:" + classifyCheckErr(err)
+			}
+			applyOpts(fi, opts)
+			return fi.Wrap(), ""
+		},
+		oracle: func(view pview, raw string) string {
+			if !(fd.kind == 'F' && len(fd.ins) >= 2 && len(names) == len(fd.ins)-1) {
+				return "-"
+			}
 			xs := make([]reflect.Type, len(names))
 			for i := range xs {
 				xs[i] = buildType(fd.ins[i+1])
@@ -128,12 +118,13 @@ func c16P(w *caseWriter, fnS, namesS, opts, ret, rawhex string) {
 					ents = append(ents, fmt.Sprintf("e|%s|%s|%s", ts, hexf(e), ansOf(pv, ok, false)))
 				}
 			}
-			oracle = strings.Join(ents, "&")
-		}); p != "" {
-			oracle = "-"
-		}
+			return strings.Join(ents, "&")
+		},
 	}
-	w.line("P", fnS, namesS, opts, ret, rawhex, view.String(), oracle, obs)
+}
+
+func c16P(w *caseWriter, fnS, namesS, opts, ret, rawhex string) {
+	c16Case(fnS, namesS, opts, ret).single(w, rawhex)
 }
 
 // ---- Args / Obj ------------------------------------------------------------------
@@ -679,11 +670,21 @@ var c16Corpus = [][2]string{
 
 func runC16(cfg *config) {
 	w := newCaseWriter(cfg.out)
+	progressPath = cfg.out + ".progress"
+	clearProgress()
 	defer w.close()
 	if cfg.replay != "" {
+		var seq [][]string
+		defer func() {
+			seqGroups(seq, 4, func(in []string) *hcase { return c16Case(in[0], in[1], in[2], in[3]) }, w)
+		}()
 		for _, l := range readLines(cfg.replay) {
 			f := strings.Split(l, "\t")
 			switch {
+			case f[0] == "Ps" && len(f) >= 7:
+				seq = append(seq, f)
+			case f[0] == "Pc" && len(f) >= 9:
+				c16Case(f[1], f[2], f[3], f[4]).concurrent(w, atoi(f[5]), atoi(f[6]), atoi(f[7]), strings.Split(f[8], ","))
 			case f[0] == "P" && len(f) >= 6:
 				c16P(w, f[1], f[2], f[3], f[4], f[5])
 			case f[0] == "A" && len(f) >= 4:
@@ -741,6 +742,43 @@ func runC16(cfg *config) {
 			if r.chance(1, 2) {
 				c16P(w, fnS, nS, popts[1+r.intn(len(popts)-1)], fmt.Sprint(r.intn(2)), hexf(p))
 			}
+		}
+	}
+	// ---- one handler value, many requests: in sequence and concurrently ----
+	gid, nconc := 0, 0
+	maxConc, iters := 60, 250
+	if cfg.tier == "thorough" {
+		maxConc, iters = 300, 600
+	}
+	procsCycle := []int{16, 4, 8, 2, 1, 12}
+	for _, pc := range pcs {
+		if pc.fd.kind != 'F' || len(pc.fd.ins) < 2 || pc.fd.variadic || len(pc.names) != len(pc.fd.ins)-1 {
+			continue
+		}
+		fnS, nS := pc.fd.String(), joinNames(pc.names)
+		xs := pc.fd.ins[1:]
+		for _, opts := range []string{"uu", "uf"} {
+			if opts == "uf" && !r.chance(1, 3) {
+				continue
+			}
+			hc := c16Case(fnS, nS, opts, fmt.Sprint(r.intn(2)))
+			for _, s := range stateProbes(r, pc.names, xs, opts[1] != 'f') {
+				hc.sequence(w, gid, hexAll(s))
+				gid++
+			}
+			ps := posParams(r, pc.names, xs, "quick")
+			var s []string
+			for c := 0; c < 6; c++ {
+				s = append(s, pick(r, ps))
+			}
+			hc.sequence(w, gid, hexAll(s))
+			gid++
+		}
+		if nconc < maxConc && r.chance(1, 2) {
+			opts := pick(r, []string{"uu", "uu", "uf", "fu"})
+			texts := concTexts(pc.names, xs, opts[1] != 'f', nil, 12)
+			c16Case(fnS, nS, opts, "0").concurrent(w, 8, iters, procsCycle[nconc%len(procsCycle)], hexAll(texts))
+			nconc++
 		}
 	}
 	na, no := 150, 150
